@@ -12,7 +12,7 @@ RULE = ('seeded histories (1..10 calls) of send / sendline / write / writelines 
         'in call order of the arguments encoded by ONE incremental encoder for the whole history (+ one linesep per sendline, one '
         'control byte per mapped control call, nothing for unmapped); send/sendline return the number of bytes written; write '
         'returns None. Added later: stateful encodings (iso2022_jp), torn reads and awaited reads inside the histories, linesep / '
-        'delaybeforesend changed between calls. Non-trivial: >= 1 byte sent; distinct by trace digest')
+        'delaybeforesend changed between calls. Ninth round: the fault kind interrupt (an exception from outside -- Ctrl-C, a raising signal handler -- abandons the call where it really waits: select/poll/recv/sleep/waitpid; the application goes on using the object) in the pause before sending: an abandoned send has sent nothing and the sends that follow come out as if it had never been made (reference encoder rolled back; stateful encodings and BOMs). Non-trivial: >= 1 byte sent; distinct by trace digest')
 
 ASSUME = ['fault-free runs: complete writes on blocking descriptors. Two fault configurations are kept apart and judged per call with '
           'a relaxed oracle (the peer holds a PREFIX of what the call was asked to send, send()/sendline() return what arrived): short '
